@@ -480,6 +480,9 @@ func (g *G) call(t grl.Type, depth int) *grl.Expr {
 		return &grl.Expr{K: "call", Path: recv, Fn: "Scale", Args: []*grl.Expr{g.Expr(grl.TFloat, d, true)}}
 	case grl.TString:
 		if g.R.Chance(g.Prof.PFieldMethod, 100) {
+			if g.R.Chance(1, 2) {
+				return &grl.Expr{K: "call", Path: recv, Fn: "LabelOf", Args: []*grl.Expr{grl.LitStr(g.R.PickStr("x y", "a", "New York", ""))}}
+			}
 			return &grl.Expr{K: "call", Path: recv, Fn: "Label"}
 		}
 		if g.R.Chance(1, 2) {
@@ -843,8 +846,21 @@ func Scenario(property string, seed uint64, prof Profile) *core.Scenario {
 		if e == nil || e.K == "call" {
 			return // the text of a fact method call stays as it is: C13 is about calls with IDENTICAL text
 		}
+		if e.K == "lit" && e.LitK == "string" {
+			for i := 0; i < len(e.S); i++ {
+				if e.S[i] >= 0x80 {
+					if ra.Chance(1, 2) {
+						e.Alt = 1 + ra.Intn(2)
+					}
+					break
+				}
+			}
+		}
 		if e.K == "lit" && (e.LitK == "int" || e.LitK == "bool") && ra.Chance(1, 8) {
 			e.Alt = 1 + ra.Intn(2)
+			if e.LitK == "bool" && ra.Chance(1, 3) {
+				e.Alt = 3
+			}
 		}
 		if e.Path != nil {
 			for i := range e.Path.Steps {
@@ -887,6 +903,7 @@ func ScenarioFor(property string, seed uint64, prof Profile) *core.Scenario {
 // naming the call text. Without the announcement the engine cannot know (Function_en.md).
 func AnnounceFieldMethods(p *grl.Program, r *core.Rand) {
 	used := map[string]bool{} // "F.Level()"
+	labelOf := map[string][]string{} // fact -> texts of its LabelOf calls
 	var walk func(e *grl.Expr)
 	walk = func(e *grl.Expr) {
 		if e == nil {
@@ -894,6 +911,10 @@ func AnnounceFieldMethods(p *grl.Program, r *core.Rand) {
 		}
 		if e.K == "call" && (e.Fn == "Level" || e.Fn == "Label") && len(e.Path.Steps) == 0 {
 			used[e.Path.Root+"."+e.Fn+"()"] = true
+		}
+		if e.K == "call" && e.Fn == "LabelOf" && len(e.Path.Steps) == 0 && len(e.Args) == 1 && e.Args[0].K == "lit" {
+			labelOf[e.Path.Root] = append(labelOf[e.Path.Root], grl.PrintExpr(e)) // the exact call text, string literal included
+			used[grl.PrintExpr(e)] = true
 		}
 		if e.Path != nil {
 			for _, s := range e.Path.Steps {
@@ -954,6 +975,24 @@ func AnnounceFieldMethods(p *grl.Program, r *core.Rand) {
 					k = "changed"
 				}
 				out = append(out, &grl.Action{K: k, Text: call})
+			}
+			if field == "S" {
+				seen := map[string]bool{}
+				for _, text := range labelOf[fact] {
+					if seen[text] {
+						continue
+					}
+					seen[text] = true
+					announced := false
+					for _, later := range rl.Then[i+1:] {
+						if (later.K == "forget" || later.K == "changed") && later.Text == text {
+							announced = true
+						}
+					}
+					if !announced {
+						out = append(out, &grl.Action{K: "forget", Text: text})
+					}
+				}
 			}
 		}
 		rl.Then = out
